@@ -20,6 +20,9 @@ type c06XStep struct {
 	Inst   int     `json:"inst"`
 	Reload *c06Cfg `json:"reload"` // non-nil: instance Inst is replaced by a new generation with this configuration (no request)
 	Case   int     `json:"case"`   // request step: index into Cases (recipe presented)
+	// Old: the request is presented to the PREVIOUS generation of the instance, the one the last reload
+	// closed (a request that was in flight across the pipeline update); it answers as before its close
+	Old bool `json:"old,omitempty"`
 }
 
 type c06XIn struct {
@@ -35,6 +38,8 @@ type c06XObs struct {
 func c06RunMulti(in c06XIn, seq *int) (obs c06XObs) {
 	cfgs := append([]c06Cfg{}, in.Cfgs...)
 	vs := make([]*Validator, len(cfgs))
+	oldVs := make([]*Validator, len(cfgs))
+	oldCfgs := make([]c06Cfg, len(cfgs))
 	mk := func(i int, prev *Validator) {
 		*seq++
 		v, err := c06NewGeneration(&cfgs[i], *seq, prev)
@@ -54,12 +59,21 @@ func c06RunMulti(in c06XIn, seq *int) (obs c06XObs) {
 	for _, st := range in.Steps {
 		if st.Reload != nil {
 			old := vs[st.Inst]
+			oldVs[st.Inst], oldCfgs[st.Inst] = old, cfgs[st.Inst]
 			cfgs[st.Inst] = *st.Reload
 			mk(st.Inst, old)
 			old.Close()
 			continue
 		}
 		c := in.Cases[st.Case]
+		if st.Old {
+			if oldVs[st.Inst] == nil {
+				panic("verif: harness defect: no previous generation to ask")
+			}
+			c.Cfg = oldCfgs[st.Inst]
+			obs.Steps = append(obs.Steps, c06RunOn(oldVs[st.Inst], c))
+			continue
+		}
 		c.Cfg = cfgs[st.Inst]
 		obs.Steps = append(obs.Steps, c06RunOn(vs[st.Inst], c))
 	}
@@ -309,6 +323,7 @@ func c06GenMulti(r *vfRand, adv bool) c06XIn {
 	case 0:
 		nb := c06Rotate(r, a)
 		x.Steps = append(x.Steps, c06XStep{Inst: 0, Reload: &nb})
+		x.Steps = append(x.Steps, c06XStep{Inst: 0, Case: 0, Old: true}) // in flight on the closed generation
 		req(0)
 		req(1)
 		back := c06CloneCfg(a)
@@ -325,6 +340,7 @@ func c06GenMulti(r *vfRand, adv bool) c06XIn {
 		same := c06CloneCfg(a)
 		x.Steps = append(x.Steps, c06XStep{Inst: 0, Reload: &same})
 		req(0)
+		x.Steps = append(x.Steps, c06XStep{Inst: 0, Case: 0, Old: true})
 		req(1)
 	}
 	return x
